@@ -151,7 +151,7 @@ var filterForms = []string{
 	"%s like 'a%%'", "%s not like '%%a'", "%s=~'a.*'", "%s!~'/a[0-9]+/'",
 }
 var filterFormsFew = []int{0, 5, 6, 9}          // 3 filters, quick
-var filterFormsMid = []int{0, 1, 4, 5, 6, 7, 9} // 3 filters, thorough
+var filterFormsMid = []int{0, 4, 5, 6, 7, 9} // 3 filters, thorough
 
 type timeForm struct {
 	s                string
@@ -336,12 +336,12 @@ func forEachSQL(thorough bool, bounds map[string]interface{}, emit emitFn) {
 			}
 		}
 	}
-	bounds["having"] = fmt.Sprintf("H := cmp | (H) | H and H | H or H, <=3 comparisons, nesting<=%d; cmp := {f,sum(g),f*2,(f+g)} x %d operators x {16777217,0.001,g} (3 comparisons: reduced atom set)", condD, len(hops))
+	bounds["having"] = fmt.Sprintf("H := cmp | (H) | H and H | H or H, <=3 comparisons, nesting<=%d; cmp := {f,sum(g),f*2,(f+g)} x %d operators x {16777217,0.001,g} (1 comparison: all; 2: the first half of the atom list; 3: four fixed comparisons)", condD, len(hops))
 	few := []string{"f > 1", "sum(g)*2 <= 0.5", "(f+g) = g", "max(sum(f)) < 2/g"}
 	for n := 1; n <= 3; n++ {
 		leafSets := make([][]string, n)
 		for i := 0; i < n; i++ {
-			if n == 1 || (n == 2 && thorough) {
+			if n == 1 {
 				leafSets[i] = hatoms
 			} else if n == 2 {
 				leafSets[i] = hatoms[:len(hatoms)/2]
